@@ -1,6 +1,6 @@
 SPEC = dict(
     props_file="C12",
-    legs=[dict(family="countmin", oracles=["prop_layout"], profiles=["debug"], n_quick=120, n_thorough=1200)],
+    legs=[dict(family="countmin", oracles=["prop_layout"], profiles=["debug"], n_quick=120, n_thorough=1200, panic_is_violation=True)],
     level_text="Theorems (Props/C12.v and its parts Props/C12_<family>.v): for every well-formed state the bytes emitted by the modelled writer are decoded by an "
                "independent layout decoder (Spec/*Layout.v, constants written as literals from the format description) to exactly the "
                "abstract state; the constants translated from the Rust source equal the specification's. Tie: the spec decoder is run on "
